@@ -134,12 +134,14 @@ DroppedNeverRun ==
 ActivatedBeforeFirstEvent ==
     \A i \in Slots : (Born(i) /\ TopIs(M(i), "trig") /\ ~Top(M(i)).init) => Top(M(i)).from # ""
 
-\* C11: the `__initial__` pseudo-transition only ever starts on a model that stores no state
+\* C11: the `__initial__` pseudo-transition only ever starts on a model that stores no state.
+\* (An async machine activates at its first event: a state written from outside before that is
+\* overridden by the pending activation - the one case where the model already stores something.)
 InitOnlyFromNoState ==
     \A i \in Slots : Born(i) =>
         \A k \in DOMAIN M(i).stack :
             (M(i).stack[k].k = "trig" /\ M(i).stack[k].init /\ M(i).stack[k].phase \in {"select", "assign"})
-                => M(i).cur = ""
+                => (M(i).cur = "" \/ M(i).async)
 \* C11: a machine created over a stored state has nothing to process
 ResumeRunsNothing ==
     [][\A i \in Slots :
